@@ -101,5 +101,13 @@ for fn, spec in (("C03", c03), ("C16", c16), ("C07", c07)):
         cap_spec(spec)
     if fn == "C03":
         quick_only(spec, keep=("H03-entry", "H03-scalars", "H03-ints", "H03-bytes", "H03-arrays", "H03-custom"))
+    if fn == "C07":
+        base = [u for u in spec["units"] if u["name"] == "H07-unknown-scalars"][0]
+        for nm, sh in (("scalars", 0),):
+            u = json.loads(json.dumps(base))
+            u["name"] = "H07-unknown-wide-" + nm
+            u["desc"] = "undeclared VARINT field with a full 64-bit symbolic value (1..10-byte varints) inserted at every top-level boundary (shape %s)" % nm
+            u["grid"].update({"vfShape": {"all": [sh]}, "vfMode": {"all": [0]}, "vfDeep": {"all": [1]}, "vfLen": {"all": [1]}})
+            spec["units"].append(u)
     json.dump(spec, open(os.path.join(root, "spec", fn + ".json"), "w"), indent=1)
 print("ok")
